@@ -91,7 +91,7 @@ fn run_op(dir: &Path, kind: &str, op: &Value) -> Value {
             match link_cores(units) {
                 Ok(out) => {
                     let go = out.go.to_pretty(&out.goenv, 120);
-                    json!({"ok": true, "go": go})
+                    json!({"ok": true, "go": go, "go_dbg": format!("{:?}", out.go)})
                 }
                 Err(e) => json!({"ok": false, "err": err_msg(&e), "at": "link"}),
             }
